@@ -19,7 +19,7 @@ from vf import run as hrun
 from vf.core import InfraError
 
 LEVEL = "model_checking"
-READY = False
+READY = True
 TECHNIQUE = ("TLC as exact oracle: Kernels.tla/IntMat.tla define every dense kernel over integers, TLC enumerates every operand shape, checks the "
              "algebraic laws as invariants and prints operands + exact expected results; a C driver replays every case through the real library "
              "(ASan/UBSan) at three dyadic scales; sorting results are trace-validated by TLC; Unroll.tla model-checks the unrolled loop's index set")
@@ -28,10 +28,23 @@ LEVEL_TEXT = ("Every shape triple of the property's quantifier (0..17 cubed in t
               "compared with what the real kernel returns for operands scaled by 2^-20, 1 and 2^20; the index set of the unrolled loop is model-checked "
               "separately for every inner dimension.")
 LEVEL_NOTE = ("Trusts TLC's integer arithmetic, the text conversion of TLC's output, the harness's comparison (exact for integer results, 1e-12 relative "
-              "for quotients, squares for norms/SDEV) and ASan/UBSan as memory monitor. Operand VALUES are one deterministic fill per shape over -5..5 "
-              "(times three scales), not all values; shapes are exhaustive within the stated bounds.")
+              "for quotients, squares for norms/SDEV) and ASan/UBSan as memory monitor. Operand VALUES are deterministic fills over -5..5 (one per shape in the quick "
+              "tier, three in the thorough tier, each at three scales), not all values; shapes are exhaustive within the stated bounds.")
 
 W = int(os.environ.get("VERIF_WORKERS", "16"))
+
+
+def _san_brief(err):
+    """the stable part of a sanitizer report (no pids / addresses, so that the same defect gives the same replay file)"""
+    import re
+    out = []
+    for line in err.splitlines():
+        m = re.match(r"\s*(#\d+) 0x[0-9a-f]+ (in \S+ \S+)", line)
+        if m and len(out) < 6:
+            out.append("  %s %s" % (m.group(1), m.group(2)))
+        elif line.startswith("SUMMARY:") or "runtime error:" in line:
+            out.append(line.strip())
+    return "\n".join(out)[:1500]
 
 # library function -> case family of Kernels.tla
 FUNCS = [
@@ -59,7 +72,7 @@ def _flat(x, out):
 def _write_cases(path, emits):
     with open(path, "w") as f:
         for e in emits:
-            f.write("%s %d %d %d %d %d\n" % (e["kern"], e["r"], e["k"], e["c"], len(e["inp"]), len(e["out"])))
+            f.write("%s %d %d %d %d %d %d\n" % (e["kern"], e["sd"], e["r"], e["k"], e["c"], len(e["inp"]), len(e["out"])))
             for a in list(e["inp"]) + list(e["out"]):
                 v = _flat(a, [])
                 f.write("%d %s\n" % (len(v), " ".join(map(str, v))))
@@ -149,7 +162,7 @@ def _drive(ctx, emits, funcs, rd, tag=""):
         for e in ev:
             if e["e"] == "Res":
                 nres += 1
-                ctx.case((fn, e["r"], e["k"] % 4, e["k"] < 4, e["c"]), _nontrivial(fam, e["r"], e["k"], e["c"]))
+                ctx.case((fn, e["sd"], e["r"], e["k"] % 4, e["k"] < 4, e["c"]), _nontrivial(fam, e["r"], e["k"], e["c"]))
                 if e.get("drift"):
                     ctx.spec_drift("%s returns a non-zero value for a non-square %dx%d matrix (undefined by the property; only memory safety is judged)" % (fn, e["r"], e["c"]))
                 if not e["ok"]:
@@ -157,10 +170,10 @@ def _drive(ctx, emits, funcs, rd, tag=""):
                                   "%s on shape r=%d k=%d c=%d (%s), operands scaled by 2^%d: cell %s is %s, the definition (%s) gives %s%s"
                                   % (fn, e["r"], e["k"], e["c"], shape_class(fam, e["r"], e["k"], e["c"]), e["exp"], e["at"], e["got"], e["what"], e["want"],
                                      "; correct at scales 1 and 2^20" if e.get("scales") == 1 else ""),
-                                  dict(kind="kernel", fn=fn, r=e["r"], k=e["k"], c=e["c"], exp=e["exp"]))
+                                  dict(kind="kernel", fn=fn, sd=e["sd"], r=e["r"], k=e["k"], c=e["c"], exp=e["exp"]))
             elif e["e"] == "Sort":
                 nres += 1
-                ctx.case((fn, e["rows"], e["key"], e["cols"], e["exp"]), e["rows"] >= 2)
+                ctx.case((fn, e["sd"], e["rows"], e["key"], e["cols"], e["exp"]), e["rows"] >= 2)
                 sort_events.append(e)
             elif e["e"] == "Reset":
                 sort_events.append(e)
@@ -170,8 +183,8 @@ def _drive(ctx, emits, funcs, rd, tag=""):
             sc = shape_class(fam, r_, k_, c_) if crash else "unknown"
             kind = h.san or "crash:rc%d" % h.rc
             ctx.violation("KERNEL:%s:%s" % (fn, ":".join(kind.split(":")[:2])),
-                          "%s on shape r=%s k=%s c=%s (%s; scale 2^%s): %s\n%s" % (fn, r_, k_, c_, sc, last.get("exp", "?"), kind, h.err[:1800]),
-                          dict(kind="kernel", fn=fn, r=r_, k=k_, c=c_, exp=last.get("exp", 0)))
+                          "%s on shape r=%s k=%s c=%s (%s; scale 2^%s): %s\n%s" % (fn, r_, k_, c_, sc, last.get("exp", "?"), kind, _san_brief(h.err)),
+                          dict(kind="kernel", fn=fn, sd=last.get("sd", 0), r=r_, k=k_, c=c_, exp=last.get("exp", 0)))
         elif done[0]["cases"] != len(fams[fam]) or nres < len(fams[fam]):
             raise InfraError("c11 harness ran %s cases of %s, %d were generated" % (done[0]["cases"], fn, len(fams[fam])))
     return sort_events
@@ -180,7 +193,7 @@ def _drive(ctx, emits, funcs, rd, tag=""):
 def _check_sort(ctx, sort_events, label="trace_sort", selftest=True):
     if not any(e["e"] == "Sort" for e in sort_events):
         return
-    ev = [{k: v for k, v in e.items() if k != "exp"} for e in sort_events]
+    ev = [{k: v for k, v in e.items() if k not in ("exp", "sd")} for e in sort_events]
     src = {id(a): b for a, b in zip(ev, sort_events)}
 
     def on_reject(e, idx, block):
@@ -188,7 +201,7 @@ def _check_sort(ctx, sort_events, label="trace_sort", selftest=True):
         fn = e.get("fn", "MatrixSort")
         ctx.violation("KERNEL:%s:order" % fn, "%s by column %s of %s (scale 2^%s) returned %s: not a permutation of the rows ordered by the key column"
                       % (fn, e.get("key"), e.get("m"), o.get("exp", "?"), e.get("res")),
-                      dict(kind="kernel", fn=fn, r=e.get("rows"), k=e.get("key"), c=e.get("cols"), exp=o.get("exp", 0)))
+                      dict(kind="kernel", fn=fn, sd=o.get("sd", 0), r=e.get("rows"), k=e.get("key"), c=e.get("cols"), exp=o.get("exp", 0)))
         return lambda x: x.get("fn") == fn
     trace.check_trace(ctx, "TraceKernels", "Trace_Kernels.cfg", "Trace_Kernels_prop.cfg", ev, on_reject, drop="event", label=label, timeout=1500)
     ctx.traces(sum(1 for e in ev if e["e"] == "Sort"))
@@ -199,13 +212,13 @@ def _check_sort(ctx, sort_events, label="trace_sort", selftest=True):
                     e["res"][0][e["cols"] - 1 if e["key"] != e["cols"] else 0] += 7      # a cell that is not the key: order stays, row multiset breaks
                     return True
             return False
-        sub = [e for e in ev if e["e"] == "Reset" or (e["rows"] >= 3 and e["cols"] >= 2)][:60]
+        sub = [e for e in ev if e["e"] == "Sort" and e["rows"] >= 3 and e["cols"] >= 2][:30]
         trace.binding_selftest(ctx, "TraceKernels", "Trace_Kernels_prop.cfg", sub, corrupt, "binding_sort")
 
 
 def run(ctx):
     ctx.assumptions += [
-        "TLC's integer arithmetic and the IntMat/Kernels definitions are the reference; shapes are exhaustive within the stated bounds, operand values are one deterministic fill over -5..5 per shape at scales 2^-20, 1, 2^20",
+        "TLC's integer arithmetic and the IntMat/Kernels definitions are the reference; shapes are exhaustive within the stated bounds, operand values are deterministic fills over -5..5 (1 per shape quick, 3 thorough) at scales 2^-20, 1, 2^20",
         "integer-valued results are compared exactly; averages within 4 ulp; variances, SDEV^2, covariance within 1e-12 relative (floor 4^e); norms and SDEV through their squares",
         "outputs are pre-zeroed where the kernels accumulate with += ; variances/covariance need >= 2 rows, averages >= 1 row/column (outside: only memory safety is judged)",
         "ASan/UBSan build: any sanitizer report while a kernel runs on a conformable operand shape is a violation",
@@ -236,10 +249,10 @@ def run(ctx):
     for e in sort_events:
         if e["e"] == "Sort" and e["rows"] == 4 and e["cols"] == 2 and e["exp"] == 0:
             ctx.sample(e, 6)
-    ctx.cov["rule"] = ("TLC enumerates every operand shape (MatrixDotProduct: %s; other kernels: rows, columns 0..17; tensors 1..4 slices; sort 1..4 columns, every key) "
-                       "and each case is run through each library function of its family at 3 scales; a case is keyed by (function, rows, inner mod 4, inner < 4, columns); "
+    ctx.cov["rule"] = ("TLC enumerates every operand shape (MatrixDotProduct: %s; other kernels: rows, columns 0..17; tensors 1..4 slices; sort 1..4 columns, every key; %d operand fill(s) per shape) "
+                       "and each case is run through each library function of its family at 3 scales; a case is keyed by (function, fill, rows, inner mod 4, inner < 4, columns); "
                        "non-trivial = no empty dimension (inner dimension >= 1 for the products)"
-                       % ("0..9 cubed plus inner 10..17 for rows, columns in {1,2,5}" if ctx.quick else "0..17 cubed"))
+                       % ("0..9 cubed plus inner 10..17 for rows, columns in {1,2,5}" if ctx.quick else "0..17 cubed", 1 if ctx.quick else 3))
     ctx.cov["exhaustive"] = True
 
 
@@ -252,7 +265,7 @@ def replay(ctx, body):
     r_, k_, c_ = case["r"], case["k"], case["c"]
     rd = tlc.rundir()
     try:
-        consts = dict(KernelSet='{"%s"}' % fam, RSet=[], KSet=[], CSet=[], XRC=[], XK=[], DSet=[], SliceSet=[], SortCols=[], DoEmit=True)
+        consts = dict(KernelSet='{"%s"}' % fam, RSet=[], KSet=[], CSet=[], XRC=[], XK=[], DSet=[], SliceSet=[], SortCols=[], SeedSet=[case.get("sd", 0)], DoEmit=True)
         if fam == "MatrixDotProduct":
             consts.update(RSet=[r_], KSet=[k_], CSet=[c_])
         elif fam == "Tensor":
